@@ -233,6 +233,14 @@ func c18EnumRedefined(c *Ctx, r *Rng) {
 		[]string{"DateTime64(3)", "DateTime64(6)", "DateTime64(0)"},
 		[]string{"DateTime64(9, 'UTC')", "DateTime64(3, 'UTC')", "DateTime64(9, 'UTC')"},
 	)
+	// the column's TYPE changes between blocks (another query through the same explicit ColAuto target, same column name):
+	// look-alikes of the same wire width, which a stale column would decode without complaint.  Typed targets refuse the
+	// second block (counted as compatible-but-rejected … here simply rejected); the reused ColAuto must re-infer.
+	defs = append(defs,
+		[]string{"UInt64", "Int64", "UInt64"}, []string{"Int32", "Float32", "UInt32"}, []string{"String", "FixedString(3)", "String"},
+		[]string{"UInt8", "Bool", "Int8"}, []string{"UUID", "IPv6", "FixedString(16)"}, []string{"Date", "UInt16", "Int16"},
+		[]string{"Decimal64", "Int64", "DateTime64(3)"}, []string{"Float64", "UInt64", "DateTime64(9)"}, []string{"IPv4", "UInt32", "DateTime"},
+	)
 	for _, seq := range defs {
 		for _, wrap := range []string{"%s", "Array(%s)", "Nullable(%s)", "auto:%s", "auto:Array(%s)", "auto:Nullable(%s)", "auto:LowCardinality(%s)"} {
 			// "auto:" = one explicit ColAuto target kept across the blocks (it infers at the first block and is reused afterwards)
